@@ -552,6 +552,10 @@ def catalogue(n, positive=False, m=2):
           {"k": "GTE", "v": [1, 2]}, {"k": "LTE", "v": [1, 2]}, {"k": "Tanh"},
           {"k": "Add", "c": [E, sma(n)]}, {"k": "Subtract", "c": [sma(n), E]}, {"k": "Multiply", "c": [E, {"k": "Roc", "n": n}]},
           {"k": "Divide", "c": [E, {"k": "Constant", "v": [3, 2]}]}]
+    # the two-slot views with a moving average that overshoots its input range (a second-order smoother)
+    v += [{"k": "EhlersFisherTransform", "n": n, "c": [E, {"k": "SuperSmoother", "n": 4}]}]
+    if n >= 3:
+        v += [{"k": "PolarizedFractalEfficiency", "n": n, "c": [E, {"k": "SuperSmoother", "n": 3}]}]
     if positive:
         v += [{"k": "Drawdown"}, {"k": "LnReturn"}, {"k": "Divide", "c": [sma(n), E]}]
     return v
@@ -878,6 +882,11 @@ def c17(tier):
                                                                     "EhlersFisherTransform", "PolarizedFractalEfficiency", "CyberCycle", "TrendFlex", "LaguerreRSI")]
     run.submit(p2_job, "twin-long", {"cfgs": stateful, "inputs": [1, 2], "unit": 1, "slots": 4, "depth": 99, "steps": 6 if tier == "quick" else 7, "nopoll": True},
                "C17", exhaustive=True, gen="SFTwin")
+    # inputs k/7: every sum and product rounds, so anything that makes the ORDER of operations depend on the instance (where a ring
+    # buffer happens to wrap, how a clone lays out its memory) shows as a one-ulp difference between twins or clone and original
+    run.submit(p2_job, "twin-sevenths", {"cfgs": stateful, "inputs": [1, 2], "unit": 7, "slots": 4, "depth": 99, "steps": 6, "nopoll": True},
+               "C17", exhaustive=True, gen="SFTwin")
+    run.submit(p2_job, "sf-sevenths", {"cfgs": catalogue(3, positive=True), "inputs": [1, 2, 3], "unit": 7, "slots": 3, "depth": depth}, "C17", num=num, twice=True)
     chn = chains2(catalogue(2, positive=True), sma(2))
     run.submit(p2_job, "twin-chains", {"cfgs": chn, "inputs": [1, 2], "unit": 1, "slots": 4, "depth": 99, "steps": 4}, "C17", exhaustive=True, gen="SFTwin")
     # exhaustive small depth on two slots: every interleaving of new/update/last/clone/drop
@@ -1028,7 +1037,7 @@ def c16(tier):
     # 0.777 and 123.4 at N = 20, 123.4 and 999.1 at N = 33 are known to cycle in the unrepaired code, the third is drawn
     for k in ("TrendFlex", "ReFlex"):
         for n, cs in (((20, (777, 123400)),) if tier == "quick" else ((20, (777, 123400)), (33, (123400, 999100)), (8, (777, 5555)))):
-            for c in cs + (rnd.randint(101, 99999),):
+            for c in cs + (rnd.randint(101, 99999),) + tuple(-c_ for c_ in cs):      # ... and their mirror images (IEEE arithmetic is sign-symmetric)
                 tail({"k": k, "n": n}, c, 2600, 10)     # sqrt(ms) decays by 0.98 per step: the limit cycle shows after about 1700 steps
     # ... and in f32 (1e-2 of the scale): 17.1 at N = 11, 3.3 at N = 23 cycle there when the noise floor is not an f32 one
     for k in ("TrendFlex", "ReFlex"):
